@@ -222,6 +222,23 @@ ADDENDA = {
 for _k, _v in ADDENDA.items():
     CLAIMS[_k]["text"] = CLAIMS[_k]["text"].rstrip() + " " + _v
 
+# structural clauses added in round 9 (DESIGN.md §4 "Additions of round 9")
+ADDENDA9 = {
+    "C02": "Round 9: the kernel selection is decided by evaluating the branch conditions over the finite selector domain (null / 0 / 1 / >= 2; every bit of the mask), whatever form the selection takes (if chain, switch, ?:).",
+    "C03": "Round 9: the evaluation wrappers of the C interface reach the member they forward to on every path with valid pointer arguments (CW-9): the wrapper never decides by itself which tables to evaluate.",
+    "C04": "Round 9: lookup touches the coordinates through comparisons only (SC-4, now also here): no arithmetic on a coordinate can produce an index.",
+    "C05": "Round 9: how far a known-order core walks is its compile-time chunk count (DP-7, now also here).",
+    "C06": "Round 9: no element of an array that fits_read_pix filled (coefficients, knots, extents) is stored again in the reader (FS-13).",
+    "C07": "Round 9: the product of the image axis lengths is bounded by a throwing guard before it sizes the coefficient array (VG-2e; defect D64 repaired); the order-sized stack arrays of evaluation need a bounded order (KB-9; known finding D65: the reader accepts any consistent ORDERn).",
+    "C10": "Round 9: the row deleted from / added to the factor is the coefficient that changes sets, in both arms of the permutation test (SP-6); a sub-factor copied by position is analysed with the given permutation forced (SP-7: nmethods = 1, postorder off on every path).",
+    "C11": "Round 9: SP-6, SP-7.",
+    "C16": "Round 9: a typed read keeps nothing between calls (RE-1, now also here).",
+    "C17": "Round 9: the basis matrix applied along dimension i is computed in iteration i (GE-8: bsplinebasis and the transposition dominate slicemultiply inside the loop); the C wrapper stores *result on every exit (CW-8).",
+    "C18": "Round 9: a result handed back through a pointer-to-pointer parameter is stored on every path to every return (CW-8); CW-9.",
+}
+for _k, _v in ADDENDA9.items():
+    CLAIMS[_k]["text"] = CLAIMS[_k]["text"].rstrip() + " " + _v
+
 NOT_APPLICABLE = {
 }
 
